@@ -5,7 +5,7 @@
 # argument says otherwise) must report a VIOLATION.
 # usage: selftest.sh [pattern] [tier]      e.g.  selftest.sh 'C03-*' quick
 set -u
-cd "$(dirname "$0")"
+cd "$(dirname "$0")"; VD=$PWD
 export GOFLAGS=-mod=mod GOPROXY=off GOSUMDB=off GOTOOLCHAIN=local
 pat=${1:-*}
 tier=${2:-quick}
@@ -17,7 +17,7 @@ for m in mutants/$pat.diff; do
   name=$(basename "$m" .diff); id=${name%%-*}
   rm -rf "$scratch/repo"; mkdir -p "$scratch/repo"
   (cd /repo && git ls-files -z | xargs -0 cp --parents -t "$scratch/repo")
-  if ! (cd "$scratch/repo" && patch -p1 -s < "/verif/$m"); then report+="$name: PATCH-FAILED"$'\n'; fail=$((fail+1)); continue; fi
+  if ! (cd "$scratch/repo" && patch -p1 -s < "$VD/$m"); then report+="$name: PATCH-FAILED"$'\n'; fail=$((fail+1)); continue; fi
   if ! (cd "$scratch/repo" && go build ./... && go test -vet=off -count=1 ./... >"$scratch/base.log" 2>&1); then
     report+="$name: INVALID-MUTANT (baseline tests fail or no build): $(grep -m2 -E "^(---|#|.*\.go:[0-9]+)" "$scratch/base.log" | tr "\n" " " | cut -c1-200)"$'\n'; fail=$((fail+1)); continue; fi
   out=$(./check "$id" "$tier" --repo "$scratch/repo" 2>&1); code=$?
